@@ -38,13 +38,13 @@ const char* gnu_get_libc_version(void) { return "2.17"; }
 enum { IDLE, AT_LOCK, AT_TRY, AT_UNLOCK, AT_CONDWAIT, IN_COND, AT_SIGNAL, AT_BCAST, DONE };
 struct thr {
   pthread_t th; sem_t go; int id; char prog[32];
-  volatile int pend, ans, woken, completed, ret;
+  volatile int pend, ans, woken, completed, ret, abandon;
 };
-struct cas {                       /* one case; leaked (kept reachable) when its threads end up stuck */
-  struct cas* next; uv_sem_t sem; struct thr t[MAXT]; int n, owner; int fifo[MAXT], nfifo;
+struct cas {                       /* one case */
+  uv_sem_t sem; struct thr t[MAXT]; int n, owner; int fifo[MAXT], nfifo;
   void* mtx; void* cnd; int addr_bad; sem_t parked;
 };
-static struct cas* abandoned; static struct cas* C;
+static struct cas* C;
 static __thread struct thr* me;    /* non-NULL: inside a uv_sem_* operation of a scheduled thread */
 
 #define EARLY __attribute__((no_sanitize("address", "undefined")))
@@ -56,6 +56,7 @@ static __thread struct thr* me;    /* non-NULL: inside a uv_sem_* operation of a
 static void park(struct thr* t, int st) {
   t->pend = st; sem_post(&C->parked);
   while (sem_wait(&t->go) == -1 && errno == EINTR) {}
+  if (t->abandon) { me = NULL; pthread_exit(NULL); }   /* case over with this thread still blocked: unwind out of libuv */
 }
 static void chk(void** slot, void* p) { if (!*slot) *slot = p; else if (*slot != p) C->addr_bad = 1; }
 
@@ -159,9 +160,10 @@ static void run_case(unsigned init, char* progs, const char* sched) {
     if (!(*s == '-' && !sched[1]) && !(*s >= '0' && *s < '0' + C->n) && !(*s >= 'a' && *s < 'a' + C->n)) { printf("bad-op\n"); free(C); C = NULL; return; }
   if (C->n == 0) { printf("bad-op\n"); free(C); C = NULL; return; }
   if (uv_sem_init(&C->sem, init)) { printf("init-failed\n"); free(C); C = NULL; return; }
+  pthread_attr_t wattr; pthread_attr_init(&wattr); pthread_attr_setstacksize(&wattr, 512 << 10);
   for (int i = 0; i < C->n; i++) {
     sem_init(&C->t[i].go, 0, 0);
-    if (pthread_create(&C->t[i].th, NULL, worker, &C->t[i])) { printf("thread-create-failed\n"); exit(4); }
+    if (pthread_create(&C->t[i].th, &wattr, worker, &C->t[i])) { printf("thread-create-failed\n"); exit(4); }
     while (sem_wait(&C->parked) == -1 && errno == EINTR) {}      /* parked at its first begin point (or DONE) */
   }
   int guard = 0, limit = 64 * (posts + waits + 4) + (int) strlen(sched);
@@ -183,17 +185,16 @@ static void run_case(unsigned init, char* progs, const char* sched) {
     if (++guard > limit) { printf("runaway "); break; }
     step(pick);
   }
+  pthread_attr_destroy(&wattr);
   int stuck = 0;
   for (int i = 0; i < C->n; i++) if (C->t[i].pend != DONE) stuck = 1;
   /* what is left: the main thread is not scheduled, its pthread calls are the real ones (the real mutex is free) */
   int left = 0, cap = (int) init + posts + 3, r = 0;
   while (left < cap && (r = uv_sem_trywait(&C->sem)) == 0) left++;
   printf("| left %d then %d stuck %d%s\n", left, left < cap ? r : 0, stuck, C->addr_bad ? " foreign-mutex" : "");
-  if (stuck) { C->next = abandoned; abandoned = C; }   /* its threads stay parked for good */
-  else {
-    for (int i = 0; i < C->n; i++) { pthread_join(C->t[i].th, NULL); sem_destroy(&C->t[i].go); }
-    uv_sem_destroy(&C->sem); sem_destroy(&C->parked); free(C);
-  }
+  for (int i = 0; i < C->n; i++) if (C->t[i].pend != DONE) { C->t[i].abandon = 1; sem_post(&C->t[i].go); }
+  for (int i = 0; i < C->n; i++) { pthread_join(C->t[i].th, NULL); sem_destroy(&C->t[i].go); }
+  uv_sem_destroy(&C->sem); sem_destroy(&C->parked); free(C);
   C = NULL;
 }
 
@@ -210,6 +211,5 @@ int main(void) {
     fflush(stdout);
   }
   fflush(stdout);
-  if (abandoned) _exit(0);     /* abandoned cases keep parked threads; nothing to tear down */
   return 0;
 }
